@@ -36,6 +36,7 @@ REGISTRY = {
                     dict(kind='egg', file='replays/merge/extract_skips_subsumed.egg', forbid_out='(Mul (Var "a") (Num 2))', require_out='(Shl (Var "a") (Num 1))')]},
     'semi': {'*': [dict(kind='egg', file='replays/semi/seminaive.egg'), dict(kind='egg', file='replays/semi/seminaive.egg', args=('--naive',))]},
     'uf': {'*': [dict(kind='harness', name='uf_partition')]},
+    'insert': {'*': [dict(kind='harness', name='table_api'), dict(kind='egg', file='replays/merge/merge_and_subsume.egg')]},
     'disp': {
         'clear': [dict(kind='harness', name='disp_clear')],
     },
